@@ -5,6 +5,7 @@ import (
 	"fmt"
 	"iter"
 	"testing"
+	"time"
 
 	"pgregory.net/rapid"
 
@@ -154,7 +155,34 @@ func c07Prop(t *testing.T, r *hx.Run, sub string) func(c c07Case) hx.Verdict {
 				fail("setup", "corebgp did not dial")
 				return
 			}
-			if c.Prelude != "" {
+			if c.Prelude == "ended-out" || c.Prelude == "ceased-out" {
+				// an earlier session on the outbound FSM (the same object dials again
+				// afterwards), ended by the remote without damping
+				oc := conns["out"]
+				w.Net.Release(p.RemoteAddr())
+				w.Settle()
+				world.Handshake(w, p, oc, rhold, remoteID)
+				if w.Sessions(p.Remote) != 1 {
+					fail("setup", "prelude: the outbound session did not establish")
+					return
+				}
+				if c.Prelude == "ceased-out" {
+					oc.RemoteSend(wire.Notif{Code: 6, Sub: 4}.Frame(), nil)
+					w.Settle()
+				}
+				oc.RemoteClose()
+				w.Settle()
+				if !w.Net.WaitDials(2, 10*time.Minute) {
+					fail("setup", "prelude: corebgp did not dial again after the earlier outbound session")
+					return
+				}
+				w.Settle()
+				conns["out"] = w.Net.PendingConn(p.RemoteAddr())
+				if conns["out"] == nil {
+					fail("setup", "prelude: no pending dial after the earlier outbound session")
+					return
+				}
+			} else if c.Prelude != "" {
 				pc := w.Inbound(p.Remote, "10.0.0.1")
 				w.Settle()
 				if len(pc.Snapshot().Bytes()) == 0 {
@@ -182,8 +210,9 @@ func c07Prop(t *testing.T, r *hx.Run, sub string) func(c c07Case) hx.Verdict {
 					return
 				}
 			}
-			closedAt := map[string]int{"out": -1, "in": -1} // burst after which the connection was found closed
-			estAt := -1                                     // burst after which a session was found Established
+			evBase, sessBase := w.Rec.Len(), w.Sessions(p.Remote) // (an outbound prelude is a whole session)
+			closedAt := map[string]int{"out": -1, "in": -1}       // burst after which the connection was found closed
+			estAt := -1                                           // burst after which a session was found Established
 			for bi, burst := range c.Bursts {
 				if c.ArmPoint != "" && bi == c.ArmBurst {
 					w.Arm(c.ArmPoint, c.ArmSkip, c.ArmD)
@@ -210,12 +239,12 @@ func c07Prop(t *testing.T, r *hx.Run, sub string) func(c c07Case) hx.Verdict {
 						closedAt[name] = bi
 					}
 				}
-				if estAt < 0 && w.Sessions(p.Remote) > 0 {
+				if estAt < 0 && w.Sessions(p.Remote) > sessBase {
 					estAt = bi
 				}
 				// once a session is Established nothing else of the peer may stay open,
 				// whether or not the remote goes on with the other connection
-				if w.Sessions(p.Remote) > 0 {
+				if w.Sessions(p.Remote) > sessBase {
 					nOpen := 0
 					for _, name := range []string{"out", "in"} {
 						if cn := conns[name]; cn != nil && !cn.Snapshot().LocalClosed {
@@ -255,7 +284,7 @@ func c07Prop(t *testing.T, r *hx.Run, sub string) func(c c07Case) hx.Verdict {
 			sc.RemoteSend(wire.Frame(wire.TypeUpdate, tag), nil)
 			w.Settle()
 			nEst, nClose, gotTag := 0, 0, false
-			for _, e := range w.Rec.Events() {
+			for _, e := range w.Rec.Events()[evBase:] {
 				switch e.K {
 				case "est+":
 					nEst++
@@ -433,10 +462,10 @@ func TestC07(t *testing.T) {
 	}), c07Prop(t, r, "all_orders_x_configs"))
 
 	// every arrival order again, after an inbound connection that failed at TCP level in OpenSent
-	hx.Enum(r, t, "all_orders_after_aborted_inbound", int64(len(orders)*2*4), iter.Seq[c07Case](func(yield func(c07Case) bool) {
+	hx.Enum(r, t, "all_orders_after_aborted_inbound", int64(len(orders)*2*6), iter.Seq[c07Case](func(yield func(c07Case) bool) {
 		for _, ord := range orders {
 			for _, cfg := range []c07Cfg{c07Cfgs[0], c07Cfgs[2]} {
-				for _, pre := range []string{"aborted-in", "reset-in", "ceased-in-oc", "closed-in-oc"} {
+				for _, pre := range []string{"aborted-in", "reset-in", "ceased-in-oc", "closed-in-oc", "ended-out", "ceased-out"} {
 					if !yield(c07Case{LocalID: cfg.lid, RemoteID: cfg.rid, LocalAS: cfg.las, RemoteAS: cfg.ras, Bursts: ord, Prelude: pre}) {
 						return
 					}
@@ -544,7 +573,7 @@ func TestC07(t *testing.T) {
 		for i := 0; i < n; i++ {
 			c.Delays = append(c.Delays, rapid.Int64Range(0, 3).Draw(rt, "delay"))
 		}
-		c.Prelude = pick(rt, "prelude", "", "", "aborted-in", "reset-in", "ceased-in-oc", "closed-in-oc")
+		c.Prelude = pick(rt, "prelude", "", "", "aborted-in", "reset-in", "ceased-in-oc", "closed-in-oc", "ended-out", "ceased-out")
 		c.Hold0 = pick(rt, "hold0", "", "", "", "local", "remote")
 		if rapid.Bool().Draw(rt, "arm") {
 			c.ArmPoint = pick(rt, "armpoint", "fsm.transition", "fsm.transition", "peer.loop", "peer.collision")
